@@ -126,6 +126,9 @@ class Session:
     def peek(self, expr, **tags):
         return self.add("peek %s" % expr, op="peek", expr=expr, **tags)
 
+    def mem_swap(self, h, ln, fill):
+        return self.add("mem_swap %d %d %d" % (h, ln, fill), op="mem_swap", h=h, len=ln, fill=fill)
+
     def pause(self, ms):
         return self.add("pause %d" % ms, op="pause", ms=ms)
 
